@@ -30,10 +30,15 @@ class RAM(MemoryType):
 
     def read(self, address, size):
         chunk = self.memory_array[address:address + size]
+        if len(chunk) < size:
+            # the access runs past the end of the device: bytes beyond it read as zero
+            chunk = chunk + bytes(size - len(chunk))
         return chunk
 
     def write(self, address, size, value):
-        self.memory_array[address:address + size] = value
+        # bytes that would fall beyond the end of the device are dropped; the device never grows
+        size = max(0, min(size, self.size - address))
+        self.memory_array[address:address + size] = value[:size]
 
 
 MEMORY_TYPE_DICT = {
